@@ -91,7 +91,17 @@ def compile_pattern(pattern):
                         elems.append(("one", ranges, neg, group))
                 else:
                     raise Unsupported("regex bounded repeat")
-            elif name in ("AT", "BRANCH", "GROUPREF", "ASSERT", "ASSERT_NOT", "MIN_REPEAT", "ATOMIC_GROUP",
+            elif name == "AT":
+                w = str(it[1])
+                if w in ("AT_BEGINNING", "AT_BEGINNING_STRING") and not elems:
+                    elems.append(("at_begin",))
+                elif w in ("AT_END",):
+                    elems.append(("at_end",))          # '$': end of string OR just before a trailing newline
+                elif w in ("AT_END_STRING",):
+                    elems.append(("at_end_string",))
+                else:
+                    raise Unsupported("regex anchor %s" % w)
+            elif name in ("BRANCH", "GROUPREF", "ASSERT", "ASSERT_NOT", "MIN_REPEAT", "ATOMIC_GROUP",
                           "POSSESSIVE_REPEAT"):
                 raise Unsupported("regex construct %s" % name)
             else:
@@ -112,7 +122,45 @@ def _pred(ranges, neg):
 def apply(ex, st, rv, kind, s):
     if not isinstance(s, SStr) or not s.is_str:
         raise Unsupported("regex on non-str %r" % (s,))
-    elems = compile_pattern(rv.pattern)
+    elems = list(compile_pattern(rv.pattern))
+    # anchors: '^' first is redundant for match/fullmatch and turns search into match; a trailing '$' is redundant for
+    # fullmatch; for match/search it also accepts one trailing newline after the matched text
+    dollar = False
+    if elems and elems[0][0] == "at_begin":
+        elems = elems[1:]
+        if kind == "search":
+            kind = "match"
+    if elems and elems[-1][0] in ("at_end", "at_end_string"):
+        last = elems[-1][0]
+        elems = elems[:-1]
+        if kind == "fullmatch":
+            pass
+        elif kind == "match":
+            if last == "at_end_string":
+                kind = "fullmatch"
+            else:
+                dollar = True
+        else:
+            raise Unsupported("regex search with an end anchor")
+    if any(e[0] in ("at_begin", "at_end", "at_end_string") for e in elems):
+        raise Unsupported("regex anchor in the middle of a pattern")
+    if dollar:
+        if len(elems) != 1 or elems[0][0] != "rep":
+            raise Unsupported("'$' after a non-repeat pattern")
+        _, ranges, neg, lo, _g = elems[0]
+        p = _pred(ranges, neg)
+        n = s.length()
+        from .strops import slice_str
+        body_all = And(n >= lo, all_chars(s, p))
+        head = slice_str(s, iv(0), n - 1, st)
+        body_nl = And(n >= 1 + lo, s.char(n - 1) == 10, all_chars(head, p))
+        a, b = ex.split(st, Or(body_all, body_nl))
+        out = []
+        if a is not None:
+            out.append(ex.res(a, MatchV({})))
+        if b is not None:
+            out.append(ex.res(b, NONE))
+        return out
     reps = [e for e in elems if e[0] == "rep"]
     out = []
     if not reps:
